@@ -180,6 +180,19 @@ def bin_path(name):
     return os.path.join(TARGET, "debug", name)
 
 
+def _big_stack():
+    # extracted list functions are not tail recursive: give the model runner a large stack
+    import resource
+    try:
+        resource.setrlimit(resource.RLIMIT_STACK, (resource.RLIM_INFINITY, resource.RLIM_INFINITY))
+    except Exception:
+        try:
+            soft, hard = resource.getrlimit(resource.RLIMIT_STACK)
+            resource.setrlimit(resource.RLIMIT_STACK, (hard, hard))
+        except Exception:
+            pass
+
+
 def run_lines(cmd, lines, shards=None, timeout=1200, env=None):
     """Feeds case lines to a line-oriented runner (sharded over processes), returns
     one output line per case (missing lines -> 'ABORT')."""
@@ -195,7 +208,7 @@ def run_lines(cmd, lines, shards=None, timeout=1200, env=None):
         e.update(env)
     for i in range(0, n, per):
         chunk = lines[i:i + per]
-        p = subprocess.Popen(cmd, stdin=subprocess.PIPE, stdout=subprocess.PIPE, stderr=subprocess.DEVNULL, env=e)
+        p = subprocess.Popen(cmd, stdin=subprocess.PIPE, stdout=subprocess.PIPE, stderr=subprocess.DEVNULL, env=e, preexec_fn=_big_stack)
         procs.append((p, chunk))
     # write in threads-free fashion: communicate sequentially (pipes buffer via communicate)
     import threading
@@ -374,3 +387,23 @@ def standard_builds(res, prop, bins):
     if not iok:
         res.broken.append(("harness-build", {"log": iout[-2500:]}))
     return mok, iok
+
+
+def coq_eval_ints(imports, expr, tag="cases", timeout=600):
+    """Evaluates `expr` (a closed Coq term over the compiled models) with vm_compute
+    inside coqc and returns every integer literal of the printed value, in order."""
+    d = os.path.join(CACHE, "cases")
+    os.makedirs(d, exist_ok=True)
+    path = os.path.join(d, "%s_%d.v" % (tag, os.getpid()))
+    with open(path, "w") as f:
+        f.write(imports + "\nEval vm_compute in (" + expr + ").\n")
+    rc, out = sh("timeout %d coqc -noglob -Q %s WR %s" % (timeout, COQ, path), timeout=timeout + 20)
+    for ext in (".vo", ".vok", ".vos", ".glob"):
+        q = path[:-2] + ext
+        if os.path.exists(q):
+            os.remove(q)
+    if rc != 0:
+        return None, out[-2000:]
+    body = out.split("=", 1)[1] if "=" in out else out
+    body = body.rsplit(":", 1)[0]
+    return [int(x) for x in re.findall(r"-?\d+", body)], ""
